@@ -552,6 +552,7 @@ def long_run_battery(ctx, kinds, to_poll=5):
 def far_time_battery(ctx, twins=True):
     """The polling scanner at clock readings where 16/32/64-bit counts of ns / us / ms wrap."""
     run_script(ctx, gen.far_times(ctx.rng, ctx.q(150, 1500)), "far-away-times")
+    run_script(ctx, gen.pending_across_wraps(ctx.rng), "pending-across-wraps")
     if twins:
         # a script of its own, in pieces: its time steps go to every instance (id -1), and TLC's integers are 32-bit
         for i in range(ctx.q(1, 10)):
